@@ -133,8 +133,12 @@ def worker_main(jobfile, shard, nshards):
     samples = []
     queries = job.get("queries", True)
 
+    flavour = [False]
+
     def fresh():
-        return ml.World(uni, init["mem"], taskspec)
+        w_ = ml.World(uni, init["mem"], taskspec)
+        w_.ctl.stop_flavour = flavour[0]      # every other fault group raises the StopIteration-flavoured fault
+        return w_
 
     want_digest = job.get("digest", False)
     digests, transcripts = {}, {}
@@ -155,6 +159,8 @@ def worker_main(jobfile, shard, nshards):
             pl = g.edges[i][1]
             if pl.get("a") == "Transfer":
                 hist.add("C12" if pl["kind"].startswith("pickle") else "C11")
+            if pl.get("exc") == "Fault":
+                hist.add("C18")          # "repeating the assignment once the fault is gone re-establishes the value of every dependant"
         if hist and epi["cur"] is None:
             tags = sorted(set(tags) | hist)
         percat[tuple(tags)] += 1
@@ -254,6 +260,7 @@ def worker_main(jobfile, shard, nshards):
 
     def process(key):
         eis = groups[key]
+        flavour[0] = (not isinstance(key[0], str)) and (sum(map(ord, key[1])) % 2 == 1)
         s, lab, d = g.edges[eis[0]]
         w = go_to(s, eis[0])
         if w is None:
